@@ -1,5 +1,5 @@
 (* The oracle that is run over implementation observations accepts every observation the model produces
-   (outside the signature of the recorded finding): it can only fire where the implementation leaves what the
+  : it can only fire where the implementation leaves what the
    theorems establish. *)
 From Icv Require Import Base.Tac Perm.PmModel Perm.PmProofs Perm.PmObs.
 Local Open Scope Z_scope.
@@ -8,18 +8,23 @@ Local Open Scope Z_scope.
 Definition pm_inv_wf (inv : list pm_obj) : Prop :=
   forall o, In o inv -> pm_lookup inv (po_type o) (po_name o) = Some o.
 
-Lemma pm_name_list_named pf inv t : forall ns acc res,
-  pm_name_list pf inv t ns acc = inr res ->
+Lemma pm_name_one_lookup pf inv t n fr o : pm_name_one pf inv t n fr = inr o -> pm_lookup inv t n = Some o.
+Proof.
+  unfold pm_name_one. destruct (pm_lookup inv t n) as [o'|]; [|discriminate].
+  destruct (pm_eval_opt pf (pm_frame_sv fr) o'); try discriminate. intros H; inversion H; reflexivity.
+Qed.
+
+Lemma pm_name_list_named pf inv t : forall ns acc fr res,
+  pm_name_list pf inv t ns acc fr = inr res ->
   (forall x, In x acc -> In x res) /\ (forall n, In n ns -> exists o, pm_lookup inv t n = Some o /\ In o res).
 Proof.
-  induction ns as [|m r IH]; intros acc res H; cbn in H.
+  induction ns as [|m r IH]; intros acc fr res H; cbn in H.
   - inversion H; subst. split; [auto|intros n []].
-  - destruct (pm_name_one pf inv t m acc) as [e|o] eqn:E; [discriminate|].
-    destruct (IH _ _ H) as [Hm Hn]. split.
+  - destruct (pm_name_one pf inv t m fr) as [e|o] eqn:E; [discriminate|].
+    destruct (IH _ _ _ H) as [Hm Hn]. split.
     + intros x Hx. apply Hm. apply in_or_app. left. assumption.
-    + intros n [<-|Hin]; [|auto]. unfold pm_name_one in E. destruct (pm_lookup inv t m) as [o'|] eqn:L; [|discriminate].
-      destruct (pm_eval_opt pf (pm_frame_sv acc) o'); try discriminate. inversion E; subst.
-      exists o. split; [reflexivity|]. apply Hm. apply in_or_app. right. left. reflexivity.
+    + intros n [<-|Hin]; [|auto]. exists o. split; [eapply pm_name_one_lookup; eassumption|].
+      apply Hm. apply in_or_app. right. left. reflexivity.
 Qed.
 
 Lemma pm_names_type_named pf inv q t acc res :
@@ -28,12 +33,10 @@ Lemma pm_names_type_named pf inv q t acc res :
 Proof.
   unfold pm_names_type, pm_names. intros H.
   destruct (pm_q_single q t) as [n0|] eqn:S.
-  - destruct (pm_name_one pf inv t n0 acc) as [e|o] eqn:E; [discriminate|].
-    assert (pm_lookup inv t n0 = Some o) as L0.
-    { unfold pm_name_one in E. destruct (pm_lookup inv t n0) as [o'|]; [|discriminate].
-      destruct (pm_eval_opt pf (pm_frame_sv acc) o'); try discriminate. inversion E; reflexivity. }
+  - destruct (pm_name_one pf inv t n0 []) as [e|o] eqn:E; [discriminate|].
+    pose proof (pm_name_one_lookup _ _ _ _ _ _ E) as L0.
     destruct (pm_q_plural q t) as [ns|] eqn:P.
-    + destruct (pm_name_list_named _ _ _ _ _ _ H) as [Hm Hn]. split.
+    + destruct (pm_name_list_named _ _ _ _ _ _ _ H) as [Hm Hn]. split.
       * intros x Hx. apply Hm. apply in_or_app. left. assumption.
       * intros n [Hs|(ns' & Hp & Hin)].
         -- inversion Hs; subst. exists o. split; [assumption|]. apply Hm. apply in_or_app. right. left. reflexivity.
@@ -43,7 +46,7 @@ Proof.
       * intros n [Hs|(ns' & Hp & Hin)]; [|discriminate].
         inversion Hs; subst. exists o. split; [assumption|]. apply in_or_app. right. left. reflexivity.
   - destruct (pm_q_plural q t) as [ns|] eqn:P.
-    + destruct (pm_name_list_named _ _ _ _ _ _ H) as [Hm Hn]. split; [assumption|].
+    + destruct (pm_name_list_named _ _ _ _ _ _ _ H) as [Hm Hn]. split; [assumption|].
       intros n [Hs|(ns' & Hp & Hin)]; [discriminate|]. inversion Hp; subst. auto.
     + inversion H; subst. split; [auto|]. intros n [Hs|(ns' & Hp & Hin)]; discriminate.
 Qed.
@@ -72,11 +75,11 @@ Proof.
 Qed.
 
 Theorem pm_oracle_accepts_model prov fast u perm tys q inv :
-  perm <> [] -> pm_inv_wf inv -> pm_sig_stale tys q = false ->
-  pm_oracle_q false u perm tys q inv
+  perm <> [] -> pm_inv_wf inv ->
+  pm_oracle_q u perm tys q inv
     (pm_observe prov (fst (pm_has_permission u perm)) (pm_filter_targets fast u perm tys q inv)) = true.
 Proof.
-  intros Hne Hwf Hsig. unfold pm_oracle_q. destruct perm as [|c0 p0] eqn:Hp; [congruence|]. rewrite <- Hp in *.
+  intros Hne Hwf. unfold pm_oracle_q. destruct perm as [|c0 p0] eqn:Hp; [congruence|]. rewrite <- Hp in *.
   unfold pm_observe. cbn [pv_has pv_cons pv_res].
   rewrite pm_spec_has_correct. rewrite Bool.eqb_reflx. cbn [andb].
   destruct (pm_filter_targets fast u perm tys q inv) as [c r] eqn:FT. cbn [fst snd].
@@ -87,10 +90,10 @@ Proof.
     { unfold pm_check_permission. destruct (pm_has_permission u perm) as [f pf]. cbn in Hh. subst f. reflexivity. }
     rewrite Hc in FT. inversion FT; subst. destruct prov; reflexivity.
   - destruct r as [objs|e]; [|reflexivity].
-    destruct (pm_only_permitted_clean _ _ _ _ _ _ _ _ Hsig FT) as (pf & Hc & Hall).
-    assert (forall o, In o objs -> pm_key_allowed false u perm inv (pm_key_of o) = true) as Hadm.
+    destruct (pm_only_permitted_clean _ _ _ _ _ _ _ _ FT) as (pf & Hc & Hall).
+    assert (forall o, In o objs -> pm_key_allowed u perm inv (pm_key_of o) = true) as Hadm.
     { intros o Ho. destruct (Hall o Ho) as [Hin Hev]. unfold pm_key_allowed, pm_key_of. cbn [fst snd].
-      rewrite (Hwf o Hin). cbn [pm_allow_g]. unfold pm_spec_allow. eapply pm_granted_allow; eassumption. }
+      rewrite (Hwf o Hin). unfold pm_spec_allow. eapply pm_granted_allow; eassumption. }
     apply andb_true_intro. split.
     + apply forallb_forall. intros k Hk. apply in_map_iff in Hk. destruct Hk as (o & <- & Ho). auto.
     + apply negb_true_iff. destruct (existsb _ (pm_named q tys)) eqn:X; [exfalso|reflexivity].
@@ -122,7 +125,7 @@ Proof.
   unfold pm_allows in Hk. destruct (pm_has_permission u perm) as [found pf] eqn:E. destruct found; [|destruct Hk].
   apply in_flat_map in Hk. destruct Hk as (o & Ho & Hk).
   destruct (pm_eval_opt pf None o) eqn:Ev; cbn in Hk; try (destruct Hk as [Hk|[]]; inversion Hk; subst; clear Hk); try destruct Hk.
-  unfold pm_key_allowed, pm_key_of. cbn [fst snd]. rewrite (Hwf o Ho). cbn [pm_allow_g].
+  unfold pm_key_allowed, pm_key_of. cbn [fst snd]. rewrite (Hwf o Ho).
   eapply pm_granted_allow; [exact Hne| |exact Ev]. unfold pm_check_permission. rewrite E. reflexivity.
 Qed.
 
@@ -132,5 +135,5 @@ Theorem pm_oracle_joins_accepts_model u inv l :
 Proof.
   intros Hwf H. unfold pm_oracle_joins. apply forallb_forall. intros k Hk. apply in_map_iff in Hk.
   destruct Hk as (o & <- & Ho). destruct (H o Ho) as [Hin Hv]. unfold pm_key_allowed, pm_key_of. cbn [fst snd].
-  rewrite (Hwf o Hin). cbn [pm_allow_g]. apply pm_join_only_permitted. assumption.
+  rewrite (Hwf o Hin). apply pm_join_only_permitted. assumption.
 Qed.
